@@ -85,7 +85,6 @@ struct CaseData
     std::vector<LibEntry> lib;
     std::vector<Op> ops;
     int probe = 0;
-    long excludedMalformedFlatten = 0;
     std::vector<char> slice; // ops the probe depends on (including itself)
 };
 
@@ -456,23 +455,6 @@ CaseData generate(Src &src)
             if (cands.empty()) {
                 cands = modelCandidates(i, any);
             }
-            if (op.svc == FLATTEN) {
-                // Known crash outside this property (reported in notes/C12.md): Model::isDefined(), reached from flattenModel(),
-                // calls a method on a null XmlNode when a component's math is not well-formed XML. Excluded by construction.
-                auto isMalformed = [&](const std::pair<int, int> &cnd) { return cnd.first == 0 && pp.modelKinds[static_cast<size_t>(cnd.second)] == 2 && pp.modelBreaks[static_cast<size_t>(cnd.second)] == kBreakMalformedMath; };
-                size_t before = cands.size();
-                cands.erase(std::remove_if(cands.begin(), cands.end(), isMalformed), cands.end());
-                if (cands.size() != before) {
-                    ++cd.excludedMalformedFlatten;
-                }
-                if (cands.empty()) {
-                    op.svc = VALIDATE;
-                    if (isProbe) {
-                        probeSvc = VALIDATE;
-                    }
-                    cands = modelCandidates(i, any);
-                }
-            }
             auto pick = cands[src.below(cands.size())];
             op.refKind = pick.first;
             op.ref = pick.second;
@@ -611,7 +593,9 @@ CaseData generate(Src &src)
             xo.explicitNone = src.flip(30);
             xo.cmetaId = src.flip(30);
             xo.oldSpellings = src.flip(30);
-            d.kind = xo.version == 11 ? "CellML 1.1" : "CellML 1.0";
+            xo.unitsInComponents = xo.layout % 2 == 1; // derived from the layout choice: saved tapes keep their meaning
+            xo.extras = xo.layout >= 2;
+            d.kind = std::string(xo.version == 11 ? "CellML 1.1" : "CellML 1.0") + (xo.unitsInComponents ? " (units in components)" : "");
             d.text = writeXml(s, xo);
             d.math = specHasMath(s);
             d.imports = !s.imports.empty();
@@ -914,31 +898,8 @@ struct Exec
         return g->interfaceCode() + "\n/* ---- implementation ---- */\n" + g->implementationCode();
     }
 
-    // Known crash outside this property (reported in notes/C12.md): the Generator calls units()->name() on every variable of
-    // the AnalyserModel; a placeholder variable of an imported component has no units, is accepted by the Validator, and - made
-    // an external variable - ends up in a valid AnalyserModel. Such models are not handed to a Generator (counted).
-    static bool generatable(const AnalyserModelPtr &am)
-    {
-        if (am == nullptr) {
-            return true;
-        }
-        auto ok = [](const AnalyserVariablePtr &v) { return v == nullptr || v->variable() == nullptr || v->variable()->units() != nullptr; };
-        bool all = ok(am->voi());
-        for (size_t i = 0; all && i < am->stateCount(); ++i) {
-            all = ok(am->state(i));
-        }
-        for (size_t i = 0; all && i < am->variableCount(); ++i) {
-            all = ok(am->variable(i));
-        }
-        return all;
-    }
-
     std::string codeFromNewGenerator(const AnalyserModelPtr &am)
     {
-        if (!generatable(am)) {
-            info["excluded-generator-unitless-variable"] = "1";
-            return "<not generated: a variable of the AnalyserModel has no units>";
-        }
         auto g = Generator::create();
         g->setModel(am);
         return generateCode(g, false);
@@ -1067,15 +1028,8 @@ struct Exec
             }
             GeneratorPtr g = fresh ? Generator::create() : (generator != nullptr ? generator : (generator = Generator::create()));
             g->setProfile(GeneratorProfile::create(op.python ? GeneratorProfile::Profile::PYTHON : GeneratorProfile::Profile::C));
-            std::string text;
-            if (generatable(am)) {
-                g->setModel(am);
-                text = generateCode(g, op.python);
-            } else {
-                info["excluded-generator-unitless-variable"] = "1";
-                text = "<not generated: a variable of the AnalyserModel has no units>";
-                g = nullptr;
-            }
+            g->setModel(am);
+            std::string text = generateCode(g, op.python);
             std::string after = dumpAnalyserModel(am);
             if (after != before) {
                 fail("C12.input-modified|Generator", firstDiff(before, after));
@@ -1083,7 +1037,7 @@ struct Exec
             rec(run, i, "arg", snapText(before));
             rec(run, i, "text", snapText(text));
             out.text = text;
-            if (!fresh && run != "H2" && g != nullptr) {
+            if (!fresh && run != "H2") {
                 sharedGeneratorPython = op.python;
                 sharedGeneratorLast = text;
                 sharedGeneratorOp = i;
@@ -1698,9 +1652,6 @@ void run(Src &tapeSrc, Case &c)
     c.text = describe(cd);
     c.hash = hashStr(c.text);
     c.weight = c.text.size();
-    if (cd.excludedMalformedFlatten != 0) {
-        c.count("excluded:ubsan:null-pointer-use|libcellml::findComponentCnUnitsNames(flattenModel of a model with malformed math)", cd.excludedMalformedFlatten);
-    }
 
     const int probe = cd.probe;
     const Op &pop = cd.ops[static_cast<size_t>(probe)];
@@ -1830,9 +1781,6 @@ void run(Src &tapeSrc, Case &c)
         }
     }
     c.count("children", 3);
-    if (j.F.info.count("excluded-generator-unitless-variable") != 0 || j.H.info.count("excluded-generator-unitless-variable") != 0) {
-        c.count("excluded:ubsan:null-pointer-use|libcellml::Generator::GeneratorImpl::updateVariableInfoSizes(variable without units)");
-    }
     if (j.F.info.count("canon-incomplete") != 0 || j.H.info.count("canon-incomplete") != 0) {
         c.count("canon-incomplete");
     }
